@@ -402,6 +402,7 @@ where
 {
     Ok(match range {
         None => u.arbitrary::<T>()?,
+        Some((l, r)) if l > r => return Err(Error::msg(format!("Invalid range [{l}, {r}]"))),
         Some((l, r)) => {
             let min = T::min_value();
             let max = T::max_value();
